@@ -92,3 +92,31 @@ package crypto
 //@   ensures[cacheonlyvalid] cacheWrites() != old(cacheWrites()) ==> result
 //@ func (*ED25519PublicKey).VerifyBytes
 //@   ensures[cacheonlyvalid] cacheWrites() != old(cacheWrites()) ==> result
+
+// ---- C17: the handshake's shared secret IS X25519 -----------------------------------------------------------------------
+// The session keys of a connection are derived from SharedSecret(peer's ephemeral key, own ephemeral key). What makes that
+// safe against an intermediary that substitutes low-order points for the ephemeral keys is X25519 itself (clamped scalar -
+// a multiple of 8 - times the Montgomery u-coordinate, all-zero output for a low-order point, which is then rejected).
+// SharedSecret therefore returns exactly X25519 of the two converted keys: x25519 / curvePriv / curvePub are uninterpreted
+// names for what the library functions compute (ASSUMED of golang.org/x/crypto and filippo.io/edwards25519); computing
+// the secret any other way - however equivalent it looks for honest keys - fails this clause.
+//@ spec func x25519(scalar BSeq, point BSeq) BSeq
+//@ spec func curvePriv(seed BSeq) BSeq
+//@ spec func curvePub(pk BSeq) BSeq
+//@ func golang.org/x/crypto/curve25519.X25519
+//@   trusted
+//@   pure
+//@   ensures isnil(result1) ==> bytes(result0) == x25519(bytes(scalar), bytes(point)) && fresh(result0) && len(result0) == 32
+//@ func Ed25519PrivateKeyToCurve25519
+//@   trusted
+//@   pure
+//@   ensures bytes(result) == curvePriv(bytes(pk))
+//@ func Ed25519PublicKeyToCurve25519
+//@   trusted
+//@   pure
+//@   ensures isnil(result1) ==> bytes(result0) == curvePub(bytes(pk))
+//@ func crypto/subtle.ConstantTimeCompare
+//@   trusted
+//@   pure
+//@ func SharedSecret
+//@   ensures[x25519] isnil(result1) ==> bytes(result0) == x25519(curvePriv(bytes(private)), curvePub(bytes(peerPublicKey)))
